@@ -6,4 +6,6 @@ From Gen Require Import Tables.
 From L2 Require Import Model GenTables.
 Require Import ExtrOcamlBasic.
 Extraction Language OCaml.
-Extraction "l2model.ml" step step_label frame_label init would_panic gen_ftables.
+(* [step] = the model with the code's order facts (= stepF code_ffacts, Facts.stepF_code); stepF / gen_ffacts are extracted too so
+   that a driver may replay the model with the facts read from the source *)
+Extraction "l2model.ml" step stepF step_label frame_label init would_panic gen_ftables gen_ffacts code_ffacts.
